@@ -123,6 +123,22 @@ class Group:
         """list of index tuples of coefficient sub-vectors with unit norm (last one eliminated by rule)"""
         return []
 
+    def vee(self, A):
+        """inverse of hat on the documented algebra, read off from the positions where hat places each coordinate"""
+        a = syms("vee!", self.dof)
+        H = self.hat(a)
+        out = [None] * self.dof
+        for i, row in enumerate(H):
+            for j, e in enumerate(row):
+                for k in range(self.dof):
+                    if out[k] is None:
+                        if e is a[k]:
+                            out[k] = A[i][j]
+                        elif e.op == "neg" and e.args[0] is a[k]:
+                            out[k] = Neg(A[i][j])
+        assert all(o is not None for o in out)
+        return out
+
     def rules(self, g):
         return [unit_rule([g[i] for i in sl]) for sl in self.unit_slices()]
 
